@@ -71,7 +71,9 @@ class Probe(object):
 # bool trees
 
 def gen_atom(draw, counter):
-    k = draw(st.integers(0, 13))
+    k = draw(st.integers(0, 14))
+    if k == 14:
+        return gen_mm(draw)
     if k <= 2:
         return ['m', draw(st.sampled_from(OPS)), draw(st.sampled_from([['i', 0], ['i', 1], ['i', 2], ['s', 'a']]))]
     if k == 3:
@@ -100,7 +102,9 @@ def gen_tree(draw, d, counter, ops_mode):
     if d <= 0 or draw(st.integers(0, 9)) < 3:
         if ops_mode:
             # operands of & | ~ must be M-expressions or combinators
-            k = draw(st.integers(0, 2))
+            k = draw(st.integers(0, 3))
+            if k == 3:
+                return gen_mm(draw)
             if k == 0:
                 return ['m', draw(st.sampled_from(OPS)), draw(st.sampled_from([['i', 0], ['i', 1], ['i', 2]]))]
             if k == 1:
@@ -129,7 +133,7 @@ def gen_tree(draw, d, counter, ops_mode):
 
 
 def ops_mode_ok(t):
-    return t[0] in ('m', 'mt', 'M', 'and', 'or', 'not')
+    return t[0] in ('m', 'mt', 'mm', 'M', 'and', 'or', 'not')
 
 
 def gen_bool(draw):
@@ -155,6 +159,14 @@ def ref_default(d, target):
     return tg.build(d[1]).obj
 
 
+def gen_mm(draw):
+    # both sides are M-things: M op M(T[k]), M(T[k]) op M, M(T[k]) op M(T[0]) ...
+    sides = [draw(st.sampled_from(['M', 'k', 0])) for _ in range(2)]
+    if sides == ['M', 'M']:
+        sides[draw(st.integers(0, 1))] = 'k'
+    return ['mm', sides[0], draw(st.sampled_from(OPS)), sides[1]]
+
+
 def cmp_expr(lhs, op, v):
     return {'==': lhs == v, '!=': lhs != v, '>': lhs > v, '<': lhs < v, '>=': lhs >= v, '<=': lhs <= v}[op]
 
@@ -168,6 +180,9 @@ def build_tree(t, log, mode):
         return {'==': v == M, '!=': v != M, '>': v > M, '<': v < M, '>=': v >= M, '<=': v <= M}[t[1]]
     if tag == 'mt':
         return cmp_expr(M(T[t[1]]), t[2], tg.build(t[3]).obj)
+    if tag == 'mm':
+        side = lambda x: M if x == 'M' else M(T[x])
+        return cmp_expr(side(t[1]), t[2], side(t[3]))
     if tag == 'M':
         return M
     if tag == 'MT':
@@ -248,6 +263,19 @@ def refbool(t, target, log):
                 return target
             raise Rej('falsy')
         if ref_cmp(sub, t[2], tg.build(t[3]).obj):
+            return target
+        raise Rej('cmp')
+    if tag == 'mm':
+        vals = []
+        for x in (t[1], t[3]):
+            if x == 'M':
+                vals.append(target)
+            else:
+                try:
+                    vals.append(target[x])
+                except (KeyError, IndexError, TypeError):
+                    raise Rej('access', True)
+        if ref_cmp(vals[0], t[2], vals[1]):
             return target
         raise Rej('cmp')
     if tag == 'M':
@@ -346,6 +374,8 @@ def check_bool(recipe, ctx):
         raise Mismatch('construction-raises', 'building %r by %s raised %r' % (tree, recipe['build'], e))
     ncomb = count_combinators(tree)
     ctx.label('exp-' + exp[0], 'build-' + recipe['build'])
+    if "'mm'" in repr(tree):
+        ctx.label('m-on-both-sides')
     short = len(rlog) < count_preds(tree)
     if short:
         ctx.label('short-circuit')
@@ -372,7 +402,7 @@ def check_bool(recipe, ctx):
         if got[0] == 'ok':
             raise Mismatch('false-accept', '%s: expression is false (%s) but glom returned %r' % (where, exp[1].why, got[1]))
         e = got[1]
-        has_access = any(tok in repr(tree) for tok in ("'mt'", "'MT'", "'t'", "'tfail'"))
+        has_access = any(tok in repr(tree) for tok in ("'mt'", "'mm'", "'MT'", "'t'", "'tfail'"))
         if not has_access and not isinstance(e, MatchError):
             raise Mismatch('rejection-not-matcherror', '%s: rejected (%s) with %s: %r'
                            % (where, exp[1].why, type(e).__name__, e.args))
